@@ -366,6 +366,10 @@ func randAccountName(r *rng.R) string {
 	var segs []string
 	for s := 0; s < nseg; s++ {
 		l := r.Range(1, 6)
+		if r.Chance(1, 12) {
+			// names of any length: 63..65, 127..129, 254..257, a thousand
+			l = []int{63, 64, 65, 127, 128, 129, 254, 255, 256, 257, 1000}[r.Intn(11)]
+		}
 		b := make([]byte, l)
 		for i := range b {
 			b[i] = alpha[r.Intn(len(alpha))]
